@@ -24,14 +24,16 @@ RECURSIVE Repeats(_, _, _, _)
 Repeats(mode, env, blk, j) == IF j > Len(blk) THEN "" ELSE ExpandStr(mode, env, blk[j].v) \o ";" \o Repeats(mode, env, blk, j + 1)
 EventOK(e) ==
     LET want == FoldBlock(e.c.mode, e.c.prefer, Block(e), Env0(e))
-        laterFails == ~want.err /\ \E j \in 1..Len(Block(e)) : Fails(e.c.mode, want.env, Block(e)[j].v)
+        \* (a BARE pipeline - nothing but the env block: no step, no other top-level key - has no "rest" that could fail or be probed;
+        \*  the block is still expanded, rewritten and exported)
+        laterFails == ~e.bare /\ ~want.err /\ \E j \in 1..Len(Block(e)) : Fails(e.c.mode, want.env, Block(e)[j].v)
     IN
     /\ ~e.panic
     /\ IF want.err \/ laterFails THEN e.err                          \* a failed expansion is reported
        ELSE /\ ~e.err
             /\ KV(e.block) = want.block                               \* rewritten in place, definition order
-            /\ e.probe = ProbeStr(e.c.mode, want.env, e.c.probe) \o "|" \o Repeats(e.c.mode, want.env, Block(e), 1)   \* what the rest of the pipeline saw
-            /\ e.probetop[1] = e.probe /\ e.probetop[2] = e.probe     \* ... top-level settings included, wherever they are written
+            /\ (e.bare \/ e.probe = ProbeStr(e.c.mode, want.env, e.c.probe) \o "|" \o Repeats(e.c.mode, want.env, Block(e), 1))   \* what the rest of the pipeline saw
+            /\ (e.bare \/ (e.probetop[1] = e.probe /\ e.probetop[2] = e.probe))     \* ... top-level settings included, wherever they are written
             /\ \A j \in 1..Len(e.lookups) :                           \* what was exported to / kept in the caller env
                   /\ e.lookups[j][2] = Has(e.c.mode, want.env, e.lookups[j][1])
                   /\ e.lookups[j][3] = Val(e.c.mode, want.env, e.lookups[j][1])
